@@ -18,6 +18,7 @@ explorer), not proved.
 -/
 import SgVerif.McRef.Lts
 import SgVerif.C38.Lemmas
+import SgVerif.C38.Explore
 namespace SgVerif.C38
 open SgVerif.McRef SgVerif.McRef.LTS
 
@@ -98,6 +99,35 @@ theorem fuel_sufficient (keep : Bool) (forbid : Option String) (cap : Nat) (s : 
 theorem explore_not_exhausted (p : Program) (keep : Bool) (cap : Nat) : (explore p keep cap).exhausted = false := by
   unfold explore
   rw [fuel_sufficient]
+
+
+/-! ### the reference explorer is sound and complete -/
+
+/-- **`Reference.explore` returns exactly the outcomes of the maximal runs** (soundness + completeness of the explorer),
+for every program, whenever the cap on the number of executions was not hit (`capped = false`; the fuel never runs out:
+`fuel_sufficient`).  `Lemmas.Term s s'` = `s'` is reachable from `s` by enabled transitions (`moves`, `step`) and has no
+enabled transition.  Outcome vectors: those of the ends that are neither failed nor deadlocked; `deadlock` / `crash` /
+`assertFail`: some end is a deadlock / has `err ∉ {0,1}` / has `err = 1` or is a normal end with the forbidden outcome. -/
+theorem explore_sound_complete (p : Program) (keep : Bool) (cap : Nat) (hc : (explore p keep cap).capped = false) :
+    (∀ o, o ∈ (explore p keep cap).outcomes ↔
+        ∃ s', Lemmas.Term (initState p) s' ∧ Lemmas.isNormalLeaf s' = true ∧ outcome s' = o) ∧
+    ((explore p keep cap).deadlock = true ↔ ∃ s', Lemmas.Term (initState p) s' ∧ Lemmas.isDeadLeaf s' = true) ∧
+    ((explore p keep cap).crash = true ↔ ∃ s', Lemmas.Term (initState p) s' ∧ Lemmas.isCrashLeaf s' = true) ∧
+    ((explore p keep cap).assertFail = true ↔ ∃ s', Lemmas.Term (initState p) s' ∧ Lemmas.isAssertLeaf p.forbid s' = true) := by
+  have h := Lemmas.exploreAux_spec keep p.forbid cap (initState p) [] {} hc
+  simpa [explore] using h
+
+/-- the explorer as a fold: with enough fuel and without hitting the cap, `exploreAux` is the fold of `leaf` over the DFS
+enumeration `Lemmas.leaves` of the ends of the maximal executions -/
+theorem explore_eq_fold_leaves (keep : Bool) (forbid : Option String) (cap : Nat) (s : State) (tr : List Label) (acc : Result)
+    (hc : (exploreAux keep forbid cap (weight s) s tr acc).capped = false) :
+    exploreAux keep forbid cap (weight s) s tr acc = (Lemmas.leaves (weight s) s tr).foldl (Lemmas.leafF keep forbid) acc :=
+  Lemmas.exploreAux_eq_fold keep forbid cap (weight s) s tr acc (Nat.le_refl _) hc
+
+-- non-vacuity: a program with one actor drawing MC_random(0,1): the cap is not hit, two maximal executions
+example : (explore { statics := [[.random 0 1]] }).capped = false ∧ (explore { statics := [[.random 0 1]] }).nexec = 2 := by decide
+example : ∃ s', Lemmas.Term (initState { statics := [[.random 0 1]] }) s' ∧ Lemmas.isNormalLeaf s' = true :=
+  ⟨_, ⟨.step 0 1 (by decide) (.refl _), by decide⟩, by decide⟩
 
 /-! ### non-vacuity -/
 
